@@ -577,7 +577,8 @@ EVALUATORS = {
 def bad_len_padding(c, detail=None):
     """class of C16-c: len_padding is neither '0' nor a character that int() strips"""
     if isinstance(c, dict) and "lp" in c and c["lp"] not in GOOD_LP:
-        return "C16-c"
+        if detail is None or (isinstance(detail, dict) and detail.get("what") == "generated text does not parse back"):
+            return "C16-c"
     return None
 
 
